@@ -51,12 +51,20 @@ MANIFEST = {
     "text": ("Lean 4 theorems about an executable heap model of Simultaneous models (model object -> invariant object, variant objects -> "
              "levels/changes dicts, solution objects): copy() and a pickle round trip return a model whose reachable mutable objects are all "
              "fresh (disjoint from everything allocated before) with the same observable state; for EVERY interleaving of assign / solve / "
-             "steady / alter_num_variants / set_description / override_tolerance / copy / pickle / get_variant operations on two separated "
+             "steady / alter_num_variants / copy / pickle / get_variant operations AND any mutator of the invariant object (Op.mutInv f for every f: "
+             "set_description, override_tolerance, reset_tolerance, change_logly) on two separated "
              "families of models each operation leaves every object of the other family untouched (invariant by induction over the operation "
-             "list, all list lengths, all numbers of variants, the numerical routines being arbitrary functions); after solve/steady the result "
-             "stored for variant k is the routine applied to the invariant data and variant k's own values only, hence equal to that of a "
-             "singleton model holding the same values, from any reachable heap (for steady under the ownership invariant 'distinct variants own distinct "
-             "dicts', itself proved to hold after every history); m[k] with k outside -N..N-1 is rejected; WHOLE-RECORD portable theorem: for every "
+             "list, all list lengths, all numbers of variants, the numerical routines being arbitrary functions); END-TO-END with input-level "
+             "hypotheses only (copy_isolated_end_to_end / pickle_isolated_end_to_end): any invariant data, any history, a copy of any model object, "
+             "then every interleaving is isolated -- separation is derived (no dangling pointers after any history, copy allocates only fresh "
+             "objects), not assumed; after solve/steady the result "
+             "stored for variant k of a model with pairwise distinct variant objects is the routine applied to the invariant data and variant k's own "
+             "values only, hence equal to what a singleton model holding the same values stores (for steady under the ownership invariant 'distinct "
+             "variants own distinct dicts', itself proved to hold after every history); the clause about SIMULATION and filtering of variant k vs a "
+             "singleton is NOT a theorem (simulate is outside the model): it is checked at the bit level by the oracles; reading back (m[name], "
+             "get_value, getters) unpacks to a scalar only for exactly one variant; rejection branches (m[k] with k outside -N..N-1, "
+             "alter_num_variants(0), unknown names, foreign portable format or kind code) are theorems too; every equation kind and every non-std "
+             "quantity kind is exported; WHOLE-RECORD portable theorem: for every "
              "model record satisfying the explicit well-formedness PortableWF (stds derived from the shocks and last, quantities and equations in kind "
              "order, every shock has its anticipated counterpart, distinct names, matching counts, variants obeying the assignment rules) "
              "fromPortable(toPortable(d, vars)) succeeds and returns the same description, flags, context keys, names, kinds, log status, descriptions, "
@@ -295,7 +303,8 @@ def dump(handles) -> str:
         ki, _ = lab("i", inv)
         nq = len(inv.quantities)
         tol = inv.tolerance
-        s = f"M{km}:I{ki}" + "{" + str(m.get_description()) + ";" + rat(tol["eigenvalue"]) + ";" + rat(tol["equality"]) + "}["
+        lg = "".join("-" if q.logly is None else ("T" if q.logly else "F") for q in inv.quantities)
+        s = f"M{km}:I{ki}" + "{" + str(m.get_description()) + ";" + rat(tol["eigenvalue"]) + ";" + rat(tol["equality"]) + ";" + lg + "}["
         vs = []
         for v in m._variants:
             kv, new = lab("v", v)
@@ -503,6 +512,12 @@ def exec_op(handles, fam, op):
     if k == "tol":
         m.override_tolerance(**{("eigenvalue" if op["key"] == "eig" else "equality"): op["x"]})
         return f"tol {op['h']} {op['key']} {rat(op['x'])}"
+    if k == "logly":         # a mutator of the invariant that rebinds `quantities`
+        m.change_logly(op["new"], op["names"] or None)
+        return f"logly {op['h']} {'T' if op['new'] else 'F'} " + (",".join(op["names"]) if op["names"] else "-")
+    if k == "rtol":
+        m.reset_tolerance()
+        return f"rtol {op['h']} {rat(1e-12)}"
     raise ValueError("bad op " + k)
 
 
@@ -523,7 +538,7 @@ def gen_op(rng, spec, handles, nonlinear: bool):
     can_create = len(handles) < MAX_HANDLES
     kind = rng.weighted([("assign", 6), ("solve", 2), ("steady", 2), ("alter", 2), ("copy", 1.5 if can_create else 0),
                          ("pickle", 1.5 if can_create else 0), ("view", 1.5 if can_create else 0), ("desc", 0.8), ("tol", 0.5),
-                         ("bad", 0.4)])
+                         ("logly", 0.9 if spec["log"] else 0), ("rtol", 0.3), ("bad", 0.4)])
     if kind == "steady" and has_dups(m):
         kind = "solve"
     if kind == "assign":
@@ -591,6 +606,13 @@ def gen_op(rng, spec, handles, nonlinear: bool):
         return {"op": "view", "h": h, "idx": idx, "how": "get_variant"}
     if kind == "desc":
         return {"op": "desc", "h": h, "s": "d" + str(rng.randint(0, 99))}
+    if kind == "logly":
+        # only the log variable `lv` is ever toggled (the AR variables may be negative): by name, or `False` for all loggables
+        if rng.chance(0.3):
+            return {"op": "logly", "h": h, "new": False, "names": []}
+        return {"op": "logly", "h": h, "new": rng.chance(0.5), "names": ["lv"]}
+    if kind == "rtol":
+        return {"op": "rtol", "h": h}
     if kind == "tol":
         return {"op": "tol", "h": h, "key": rng.choice(["eig", "eq"]), "x": 2.0 ** -rng.randint(30, 44)}
     # user errors that the code rejects without touching anything
@@ -985,6 +1007,9 @@ def final_oracles(ctx: Ctx, case, handles, fam):
     for k in (range(nv) if nv <= 3 else rng.sample(range(nv), 3)):
         s = build(spec)
         s.override_tolerance(**dict(x.get_tolerance()))
+        for n_, v_ in x.get_log_status().items():       # the singleton is the same model: same log status
+            if s.get_log_status()[n_] != v_:
+                s.change_logly(v_, [n_])
         s.assign(**{n: (lev[n][k], chg[n][k]) for n in lev.keys()})
         s.assign(**{n: par[n][k] for n in par.keys()})
         try:
